@@ -213,7 +213,7 @@ def run(params, chooser):
                            len(ar.peer.requests), tuple(sorted(ar.env.completions)))))
         return None
     out = ar.run(setup=setup, on_quiescent=on_quiescent)
-    violation = judge(site, starts, ref_opts(ro), conc, out)
+    violation = judge(site, starts, ref_opts(ro), conc, out, strict_once=True)
     sig = None
     if violation:
         sig = 'C01:%s:%s:%s' % (violation.split(':')[0][:50], params['site'] if not
@@ -236,7 +236,10 @@ def requrl(q):
     return crawlref.canon(None, '%s://%s%s' % (scheme, host, q['target']))
 
 
-def judge(site, starts, ro, conc, out):
+def judge(site, starts, ro, conc, out, strict_once=False):
+    """strict_once: also report a URL that is requested once as its own item and again as
+    the target of a redirect that wpull follows inside another item (the reference crawler
+    predicts exactly these requests; see DESIGN.md section 6 and known_findings.json)."""
     if out['result'] != 'ok':
         return 'no termination: %s' % out['result']
     if out['exc']:
@@ -299,6 +302,11 @@ def judge(site, starts, ro, conc, out):
                                             for s in starts})
                 if scope.in_scope(c, child, o2) and c not in rows:
                     return 'link in scope at recorded level has no row: %s (from %s)' % (c, u)
+    if strict_once:
+        for u, n in sorted(actual.items()):
+            if n > 1:
+                return ('requested %d times (its own visit and as the target of a redirect '
+                        'followed inside another URL\'s visit): %s' % (n, u))
     return None
 
 
